@@ -29,9 +29,12 @@ func (s *Solver) checkFull(pc []string, capMs int, extra ...string) string {
 		s.send(fmt.Sprintf("(set-option :timeout %d)", capMs))
 		s.curTimeout = capMs
 	}
+	s.alignStack(pc)
 	s.send("(push)")
 	for _, p := range pc {
-		s.send("(assert " + strings.TrimPrefix(strings.TrimPrefix(p, "#def#"), "#name#") + ")")
+		if strings.HasPrefix(p, "#def#") {
+			s.send("(assert " + p[5:] + ")")
+		}
 	}
 	for _, p := range extra {
 		s.send("(assert " + p + ")")
